@@ -24,6 +24,7 @@ a pass-through proxy bound to the name `asyncio` in `socketio.async_client`.
 `random.random` is a scripted sequence bound to the name `random` in the two client modules.
 """
 import asyncio
+import copy
 import logging
 import threading
 from fractions import Fraction
@@ -43,6 +44,7 @@ for _n in ('engineio.client', 'socketio.client', 'engineio', 'socketio'):
 
 HANG_S = 5           # only to turn a hang (mutant, harness bug) into a report instead of a stuck check
 NS_UNIVERSE = ['/', '/a', '/b']
+NS_LATE = '/late'      # a handler for it is registered only after connect() (step 'app')
 EVENTS = ['connect', 'connect_error', 'disconnect', '__disconnect_final']
 
 
@@ -202,6 +204,7 @@ class BaseWorld:
         self.cur_connects = 0
         self.effort_waits = []      # (index, delay) of the current effort
         self.conn_table = []        # index -> dict of connect kwargs (what the application passed)
+        self.conn_pristine = []     # the same, deep-copied when the scenario was built
 
     # ---- script
     def script(self, outs, rands, abort_at, abort_mode='shutdown'):
@@ -245,6 +248,8 @@ class BaseWorld:
         given.update(kwargs)
         idx = self.canon_idx(given)
         nss = given.get('namespaces')
+        if isinstance(nss, list):
+            nss = list(nss)             # as it is NOW (the library may hold and change the same list)
         ev = {'attempt': idx, 'nss_arg': nss, 'retry': given.get('retry', False),
               'eio_from': len(self.eio_attempts)}
         self.trace.append(ev)
@@ -254,7 +259,7 @@ class BaseWorld:
         """first parameter set of the table equal to `given` (namespaces apart: they are compared
         on their own); -1 when none is"""
         names = ['url', 'headers', 'auth', 'transports', 'socketio_path']
-        for i, p in enumerate(self.conn_table):
+        for i, p in enumerate(self.conn_pristine):
             if all(_same_param(given.get(n, _DEFAULTS[n]), p.get(n, _DEFAULTS[n])) for n in names):
                 return i
         return -1
@@ -279,7 +284,7 @@ class BaseWorld:
         o = self.next_outcome()
         self.cur_out = o
         self.cur_connects = 0
-        rec = {'transport_called': transport, 'url': url, 'headers': headers,
+        rec = {'transport_called': transport, 'url': url, 'headers': copy.deepcopy(headers),
                'transports': list(eio.transports), 'path': path, 'connects': [], 'outcome': o}
         self.eio_attempts.append(rec)
         return o, rec
@@ -305,12 +310,15 @@ class BaseWorld:
         ns = p.namespace or '/'
         i = self.cur_connects
         self.cur_connects += 1
-        self.eio_attempts[-1]['connects'].append((ns, p.data))
+        self.eio_attempts[-1]['connects'].append((ns, copy.deepcopy(p.data)))
         o = self.cur_out
         if o == 'L':
             return [('lose',)] if i == 0 else []
-        mask = o[1] if isinstance(o, tuple) else []
-        ok = mask[i] if i < len(mask) else True
+        if isinstance(o, tuple) and o[0] == 'N':
+            ok = ns not in o[1]         # ('N', names): these namespaces are refused, whatever their position
+        else:
+            mask = o[1] if isinstance(o, tuple) else []
+            ok = mask[i] if i < len(mask) else True
         if ok:
             self.sid_n += 1
             return [('msg', sio_packet.Packet(sio_packet.CONNECT, data={'sid': 's%d' % self.sid_n},
@@ -326,7 +334,11 @@ class BaseWorld:
             self.trace.append('left')
 
     def add_params(self, p):
+        """`p` is what the application hands to connect(); a deep copy of the plain values is kept
+        apart, so that a library that changes a dict / list it was given IN PLACE is still compared
+        with what the application passed (callables are compared by identity)"""
         self.conn_table.append(p)
+        self.conn_pristine.append({k: (v if callable(v) else copy.deepcopy(v)) for k, v in p.items()})
         return len(self.conn_table) - 1
 
 
@@ -515,14 +527,38 @@ class ThreadWorld(BaseWorld):
         return h
 
     # ---- operations (harness thread)
-    def connect(self, idx, outcome='S'):
+    def connect(self, idx, outcome='S', wait=True):
         p = self.conn_table[idx]
         self.outs = [outcome]
+        kw = {k: v for k, v in p.items() if k != 'url'}
+        if not wait:
+            kw['wait'] = False
         try:
-            self.client.connect(p['url'], **{k: v for k, v in p.items() if k != 'url'})
+            self.client.connect(p['url'], **kw)
             return 'ok'
         except Exception as ex:     # noqa
             return type(ex).__name__
+
+    def ns_end(self, ns):
+        """the server ends ONE namespace: a Socket.IO DISCONNECT packet on the live transport"""
+        try:
+            self.eio._trigger_event('message', sio_packet.Packet(sio_packet.DISCONNECT, namespace=ns).encode(),
+                                    run_async=False)
+        except Exception as ex:     # noqa
+            self.problems.append('DISCONNECT packet raised %s' % type(ex).__name__)
+        return self.drive()
+
+    def app(self, what, ns=None):
+        """things the application does on a live connection that do not change what connect() was given"""
+        try:
+            if what == 'emit':
+                self.client.emit('x', {'n': 1}, namespace=ns)
+            elif what == 'late_handler':
+                self.client.on('connect', self._handler('connect', NS_LATE), namespace=NS_LATE)
+            else:
+                raise ValueError(what)
+        except Exception as ex:     # noqa
+            self.problems.append('application call %s raised %s' % (what, type(ex).__name__))
 
     def lose(self, cause):
         c = self.client
@@ -719,17 +755,45 @@ class AsyncWorld(BaseWorld):
     def _run(self, coro):
         return self.loop.run_until_complete(coro)
 
-    def connect(self, idx, outcome='S'):
+    def connect(self, idx, outcome='S', wait=True):
         p = self.conn_table[idx]
         self.outs = [outcome]
+        kw = {k: v for k, v in p.items() if k != 'url'}
+        if not wait:
+            kw['wait'] = False
 
         async def go():
             try:
-                await self.client.connect(p['url'], **{k: v for k, v in p.items() if k != 'url'})
+                await self.client.connect(p['url'], **kw)
                 return 'ok'
             except Exception as ex:     # noqa
                 return type(ex).__name__
         return self._run(go())
+
+    def ns_end(self, ns):
+        async def go():
+            try:
+                await self.eio._trigger_event(
+                    'message', sio_packet.Packet(sio_packet.DISCONNECT, namespace=ns).encode(), run_async=False)
+            except Exception as ex:     # noqa
+                self.problems.append('DISCONNECT packet raised %s' % type(ex).__name__)
+        self._run(go())
+        if self.tasks:
+            self.problems.append('a reconnection effort was started by the DISCONNECT of one namespace')
+        return []
+
+    def app(self, what, ns=None):
+        async def go():
+            try:
+                if what == 'emit':
+                    await self.client.emit('x', {'n': 1}, namespace=ns)
+                elif what == 'late_handler':
+                    self.client.on('connect', self._handler('connect', NS_LATE, True), namespace=NS_LATE)
+                else:
+                    raise ValueError(what)
+            except Exception as ex:     # noqa
+                self.problems.append('application call %s raised %s' % (what, type(ex).__name__))
+        self._run(go())
 
     def lose(self, cause):
         c = self.client
